@@ -59,7 +59,7 @@ Definition mrun (ops : list mop) : manager := fold_left (fun m o => fst (mstep m
 Inductive exc :=
 | EOSError | EFileNotFound | EValueError | EUnicodeDecode | EJSONDecode | EKeyError | EIndexError
 | EAssertion | ETypeError | EAttribute | ENotImplemented | EImportError | EXMLSyntax | EParseError
-| EValidation | EException.
+| EValidation | EException | ERecursion | EBadZip | EZlib.
 
 Definition exc_eqb (a b : exc) : bool :=
   match a, b with
@@ -67,7 +67,8 @@ Definition exc_eqb (a b : exc) : bool :=
   | EUnicodeDecode, EUnicodeDecode | EJSONDecode, EJSONDecode | EKeyError, EKeyError
   | EIndexError, EIndexError | EAssertion, EAssertion | ETypeError, ETypeError | EAttribute, EAttribute
   | ENotImplemented, ENotImplemented | EImportError, EImportError | EXMLSyntax, EXMLSyntax
-  | EParseError, EParseError | EValidation, EValidation | EException, EException => true
+  | EParseError, EParseError | EValidation, EValidation | EException, EException
+  | ERecursion, ERecursion | EBadZip, EBadZip | EZlib, EZlib => true
   | _, _ => false
   end.
 
@@ -94,19 +95,23 @@ Definition raises (c : string) : option (list exc) :=
   let pure := Some [] in
   match c with
   | "open(file_path)" => Some [EOSError]
-  | "json.load(file_to_be_checked)" => Some [EJSONDecode; EUnicodeDecode]
+  | "json.load(file_to_be_checked)" => Some [EJSONDecode; EUnicodeDecode; ERecursion]
   (* the tool's own schema file, shipped with the package *)
   | "open(JSON_SCHEMA_FILE)" | "json.load(json_file)" => pure
   | "jsonschema.validate" => Some [EValidation]
-  | "etree.parse" => Some [EXMLSyntax]
+  | "etree.parse" => Some [EXMLSyntax; EOSError]        (* lxml: undecodable bytes from a file object *)
   | "etree.XMLSchema" | "etree.XMLParser" => pure
-  | "json_deserialization.read_aas_json_file" => Some [EJSONDecode; EUnicodeDecode]
-  | "xml_deserialization.read_aas_xml_file" => pure       (* failsafe: syntax errors are logged *)
+  | "json_deserialization.read_aas_json_file" => Some [EJSONDecode; EUnicodeDecode; ERecursion]
+  | "xml_deserialization.read_aas_xml_file" => Some [EOSError]   (* failsafe logs syntax errors; lxml I/O errors pass *)
   | "aasx.AASXReader" => Some [EFileNotFound; EValueError]
-  | "reader.read_into" => Some [EValueError; EKeyError; EIndexError]
-  | "reader.get_core_properties" => Some [EKeyError; EXMLSyntax]
-  | "reader.reader.get_related_parts_by_type" => Some [EXMLSyntax]
-  | "reader.reader.get_content_type" | "reader.reader.open_part" => Some [EKeyError]
+  (* damaged zip members surface as BadZipFile / zlib.error / OSError / NotImplementedError (unsupported
+     compression method or flag) wherever a part is read *)
+  | "reader.read_into" =>
+    Some [EValueError; EKeyError; EIndexError; EXMLSyntax; EBadZip; EZlib; EOSError; ENotImplemented]
+  | "reader.get_core_properties" => Some [EKeyError; EXMLSyntax; EBadZip; EZlib; EOSError; ENotImplemented]
+  | "reader.reader.get_related_parts_by_type" => Some [EXMLSyntax; EBadZip; EZlib; EOSError; ENotImplemented]
+  | "reader.reader.get_content_type" => Some [EKeyError]
+  | "reader.reader.open_part" => Some [EKeyError; EBadZip; EOSError; ENotImplemented]
   | "checker.check_object_store" => Some [ENotImplemented]
   | "files.get_sha256(obj.value)" => Some [EKeyError]
   (* reached only after AASDataChecker found the store equal to the example data, whose submodel holds
